@@ -299,6 +299,67 @@ def mutants(rng, b: bytes, n: int) -> list[tuple[str, bytes]]:
     return out
 
 
+UNDEFINED_TAGS = [0x0b, 0x0c, 0x7f, 0x80, 0xfe, 0xff]
+
+
+def tag_positions(body: bytes) -> list[tuple[int, int]]:
+    """offsets (and values) of the node tag bytes of valid binary Micheline"""
+    out = []
+
+    def node(pos: int) -> int:
+        tag = body[pos]
+        out.append((pos, tag))
+        pos += 1
+        if tag == 0:
+            while body[pos] & 0x80:
+                pos += 1
+            return pos + 1
+        if tag in (1, 10):
+            return pos + 4 + int.from_bytes(body[pos:pos + 4], 'big')
+        if tag == 2:
+            end = pos + 4 + int.from_bytes(body[pos:pos + 4], 'big')
+            pos += 4
+            while pos < end:
+                pos = node(pos)
+            return end
+        pos += 1  # primitive tag
+        if tag == 9:
+            end = pos + 4 + int.from_bytes(body[pos:pos + 4], 'big')
+            pos += 4
+            while pos < end:
+                pos = node(pos)
+            return end + 4 + int.from_bytes(body[end:end + 4], 'big')
+        for _ in range((tag - 3) // 2):
+            pos = node(pos)
+        if (tag - 3) % 2:
+            pos += 4 + int.from_bytes(body[pos:pos + 4], 'big')
+        return pos
+
+    try:
+        node(0)
+    except IndexError:
+        pass
+    return out
+
+
+def tag_mutants(rng, b: bytes) -> list[tuple[str, bytes]]:
+    """node TAG bytes (03..0a, esp. the generic 09 of >= 3-argument primitives) replaced by undefined tag values"""
+    pos = [(p + 1, t) for p, t in tag_positions(b[1:])]
+    out = []
+    nine = [p for p, t in pos if t == 9]
+    for p in nine[:2]:
+        for u in UNDEFINED_TAGS:
+            out.append(('tag09-undefined', b[:p] + bytes([u]) + b[p + 1:]))
+    prims = [p for p, t in pos if 3 <= t <= 10 and p not in nine[:2]]
+    if prims:
+        p = rng.choice(prims)
+        out.append(('tag-undefined', b[:p] + bytes([rng.choice(UNDEFINED_TAGS)]) + b[p + 1:]))
+    if pos and rng.random() < 0.3:
+        p = rng.choice(pos)[0]
+        out.append(('tag-undefined', b[:p] + bytes([rng.choice(UNDEFINED_TAGS + [0x0d, 0x10, 0x40])]) + b[p + 1:]))
+    return out
+
+
 # ----------------------------------------------------------------------------- running the implementation
 def impl_unpack(T, b: bytes):
     ok, r = lib.call(T.unpack, bytes(b))
@@ -396,7 +457,9 @@ NON_PACKABLE_PARTS = [
     {'prim': 'pair', 'args': [{'prim': 'nat'}, {'prim': 'big_map', 'args': [{'prim': 'nat'}, {'prim': 'nat'}]}]},
     {'prim': 'option', 'args': [{'prim': 'ticket', 'args': [{'prim': 'string'}]}]},
 ]
-LAMBDA_BODIES = [[{'prim': 'FAILWITH'}], [{'prim': 'DROP'}, {'prim': 'UNIT'}, {'prim': 'FAILWITH'}], []]
+LAMBDA_BODIES = [[{'prim': 'FAILWITH'}], [{'prim': 'DROP'}, {'prim': 'UNIT'}, {'prim': 'FAILWITH'}], [],
+                 [{'prim': 'LAMBDA', 'args': [{'prim': 'nat'}, {'prim': 'nat'}, [{'prim': 'DUP'}, {'prim': 'ADD'}]]}, {'prim': 'FAILWITH'}],
+                 [{'prim': 'LAMBDA', 'annots': ['@f'], 'args': [{'prim': 'unit'}, {'prim': 'unit'}, []]}, {'prim': 'DROP'}, {'prim': 'FAILWITH'}]]
 
 
 def lambda_signature_cases(rng):
@@ -455,7 +518,7 @@ def run(ctx: lib.Ctx) -> None:
                 '2..8 leaves with and without annotations, list, set, map, lambda) and a value (boundary integers, timestamps, key hashes '
                 '00..03.../...00, entrypoints, lambdas incl. PUSH of domain literals) are drawn; pack(), pack(legacy), unpack() and the '
                 'PACK/UNPACK instructions are run; malformed stream = truncations, extensions, bit/byte flips, non-minimal integers, edited '
-                'length fields, wrong head byte, insertions/deletions of the packed bytes, plus packed readable/legacy forms. non-trivial = value '
+                'length fields, wrong head byte, insertions/deletions of the packed bytes, node tag bytes replaced by undefined tags (0b, 0c, 7f, 80, fe, ff; every 09 of a >= 3-argument primitive), plus packed readable/legacy forms. non-trivial = value '
                 'with >= 3 constructors or any mutant; distinct = distinct (type, value) / (type, bytes)')
     viols: list = []
     pack_cases, pack_meta, un_cases, un_meta = [], [], [], []
@@ -579,6 +642,8 @@ def run(ctx: lib.Ctx) -> None:
         pack_cases.append((f'({G.coq_env(G.ShaTable(), {})}, false, {G.coq_ty(n)}, {G.coq_val(v)})', cok(chex(packed))))
         pack_meta.append(dict(meta, packed=packed.hex()))
         add_unpack(tj, n, T, packed, 'lambda-signature', meta, False)
+        for kind, mb in tag_mutants(rng, packed):
+            add_unpack(tj, n, T, mb, kind, meta, False)
         sti, ib = interp_lambda_pack(lam_t, code)
         ctx.dist[f'interp:LAMBDA;PACK:{sti}'] += 1
         want = b'\x05' + enc_tree(code)
@@ -606,7 +671,7 @@ def run(ctx: lib.Ctx) -> None:
         un_meta.append({'type': tj, 'not_packable': True})
 
     # ---- generated values
-    nvals = ctx.n(220, 2000)
+    nvals = ctx.n(190, 2000)
     for it in range(nvals):
         depth = rng.choice([1, 2, 2, 3, 3, 4])
         while True:
@@ -663,12 +728,19 @@ def run(ctx: lib.Ctx) -> None:
         add_unpack(tj, n, T, packed, 'packed', meta, interp)
         if okl and packed_legacy != packed and rng.random() < 0.5:
             add_unpack(tj, n, T, packed_legacy, 'legacy', meta, False)
+        okr_readable = None
         if rng.random() < 0.3:
             okr, readable = lib.call(lambda: b'\x05' + enc_tree(lib.canon_micheline(obj.to_micheline_value('readable'))))
             if okr and readable != packed:
                 add_unpack(tj, n, T, readable, 'readable-form', meta, False)
+                okr_readable = readable
         for kind, mb in mutants(rng, packed, rng.choice([2, 3, 3])):
             add_unpack(tj, n, T, mb, kind, meta, rng.random() < 0.08, good=packed)
+        for kind, mb in tag_mutants(rng, packed):
+            add_unpack(tj, n, T, mb, kind, meta, False)
+        if okr_readable is not None:
+            for kind, mb in tag_mutants(rng, okr_readable)[:7]:
+                add_unpack(tj, n, T, mb, kind + ':readable-form', meta, False)
         if len(viols) > 40:
             break
 
